@@ -3,7 +3,7 @@
    singular value (Umeyama's case): the repaired code flips the last direction and the theorem says the result is the
    optimal proper rotation. *)
 From Coq Require Import Reals List Arith ZArith Lia Lra Bool Psatz.
-From Romea Require Import Num NumR LinAlgBModel LinAlgBProofs LsProofs KabschModel KabschProofs KabschProper KabschLists.
+From Romea Require Import Num NumR LinAlgBModel LinAlgBProofs LsProofs KabschModel KabschProofs KabschProper KabschLists KabschPrecond.
 Import ListNotations.
 Local Open Scope R_scope.
 
@@ -131,3 +131,32 @@ Proof.
   apply (estimate_exact_recovery sq_svd 3 3 sq_pairs); [now right|lia|discriminate|exact sq_contract| | |exact sq_rank|exact sq_exact];
     apply sq_R0_proper.
 Qed.
+
+(* the square preconditioned by the scale 2 on both sets: cross covariance 4 times the original one *)
+Definition sq2_svd (k : nat) (M : list (list R)) : (list (list R) * list R) * list (list R) :=
+  (([[1;0;0];[0;1;0];[0;0;1]], [8;8;0]), [[0;-1;0];[1;0;0];[0;0;-1]]).
+Definition sq2_cov : list (list R) :=
+  cross_cov ROps 3 (scale_pairs 2 sq_pairs) (p_sm 3 (scale_pairs 2 sq_pairs)) (p_tm 3 (scale_pairs 2 sq_pairs)).
+
+Lemma sq2_cov_entries : forall i j, (i < 3)%nat -> (j < 3)%nat ->
+  mg sq2_cov i j = mg [[0;8;0];[-8;0;0];[0;0;0]] i j.
+Proof.
+  intros i j Hi Hj.
+  destruct i as [|[|[|i]]]; try lia; destruct j as [|[|[|j]]]; try lia;
+    cbn; unfold nat_to_T; cbn; lra.
+Qed.
+
+Lemma sq2_contract : svd_contract 3 sq2_cov (sq2_svd 3 sq2_cov).
+Proof.
+  unfold svd_contract, sq2_svd.
+  split.
+  { intros i j Hi Hj. rewrite sq2_cov_entries by assumption.
+    destruct i as [|[|[|i]]]; try lia; destruct j as [|[|[|j]]]; try lia; cbn; lra. }
+  repeat split; intros;
+    repeat match goal with
+           | i : nat |- _ => destruct i as [|i]; [|try lia]
+           end; try lia; cbn; unfold delta; cbn; try lra.
+Qed.
+
+Lemma sq_is_aligned : length (map fst sq_pairs) = length (map snd sq_pairs) /\ combine (map fst sq_pairs) (map snd sq_pairs) = sq_pairs.
+Proof. split; reflexivity. Qed.
